@@ -827,6 +827,26 @@ func DrawStmt(t *rapid.T, tables []TableSpec, opt StmtOptions) Stmt {
 			// blank is added (values that compare equal under MySQL's default collations but are different data)
 			ri := rapid.IntRange(0, len(tb.Rows)-1).Draw(t, "nearRow")
 			for j, c := range tb.Cols {
+				if j >= len(tb.PK) && c.Base == "DATETIME" && tb.Rows[ri][j].Kind == "time" && b.usable(c) {
+					// … or only the fraction of a second changes
+					if tm, err := time.Parse(time.RFC3339Nano, tb.Rows[ri][j].S); err == nil && tm.Nanosecond() < 500000000 {
+						b.setCols = append(b.setCols, c.Name)
+						b.sb.WriteString(Q(c.Name) + " = ")
+						b.val(Lit{Kind: "time", S: tm.Add(123456 * time.Microsecond).Format(time.RFC3339Nano)}, false)
+						b.sb.WriteString(" WHERE ")
+						for k, pk := range tb.PK {
+							if k > 0 {
+								b.sb.WriteString(" AND ")
+							}
+							b.sb.WriteString(pk + " = ")
+							b.val(tb.Rows[ri][k], true)
+						}
+						b.classes["near-equal-set"] = true
+						shape = append(shape, "pk-eq")
+						nonKey = nil
+						break
+					}
+				}
 				if j < len(tb.PK) || (c.Base != "VARCHAR" && c.Base != "TEXT") || tb.Rows[ri][j].Kind != "str" || !b.usable(c) {
 					continue
 				}
@@ -985,6 +1005,9 @@ func DupInsert(t *rapid.T, tables []TableSpec) *Stmt { return dupInsert(t, table
 
 func (b *sqlBuilder) freshKey(tb TableSpec, c ColSpec, r int) Lit {
 	n := int64(100 + r + 10*rapid.IntRange(0, 9).Draw(b.t, "fresh"))
+	if c.Base != "VARCHAR" && !c.AutoInc && r == 0 && rapid.IntRange(0, 19).Draw(b.t, "zeroKey") == 7 {
+		n = 0 // a key value of zero is an ordinary value for a key that is not AUTO_INCREMENT
+	}
 	if c.Base == "VARCHAR" {
 		return Lit{Kind: "str", S: fmt.Sprintf("n%d", n)}
 	}
